@@ -143,7 +143,9 @@ _RB = {"quick": {"NK": 6, "NK2": 6, "K": "(0, 1, 2, 3, 4, 5, 6, 7)", "K2": "(0, 
        "thorough": {"NK": 12, "NK2": 6, "K": _ALLK, "K2": "(0, 1, 5)", "W3": "(i1 < 6 and i2 < 6 and i3 < 6)"}}
 # the other forms differ from $.a / $.a.b / $.a[0] only in the (concrete) path text: the second member's name ranges over a, b at quick
 _RB_ALT = {"quick": dict(_RB["quick"], NK2=2), "thorough": dict(_RB["thorough"], K2="(0, 1)")}
-_RB_MAIN = {"dot2": _RB, "dot1": {"quick": _RB["quick"], "thorough": _RB_ALT["thorough"]}, "idx0": {"quick": _RB["quick"], "thorough": _RB_ALT["thorough"]}}
+_RB_MAIN = {"dot2": {"quick": _RB["quick"], "thorough": dict(_RB["thorough"], NK2=2)},      # second member int or {"b": ..} named a / b
+            "dot1": {"quick": _RB["quick"], "thorough": _RB_ALT["thorough"]}, "idx0": {"quick": _RB["quick"], "thorough": _RB_ALT["thorough"]}}
+_RB_SPELL = {"quick": _RB_ALT["quick"], "thorough": dict(_RB_ALT["thorough"], W3="False")}   # alternative spellings of the same token lists
 _RB_DEEP = {"quick": {"NK": 6, "NK2": 2, "K": "(0, 1, 4, 5, 6, 9, 10, 11)", "K2": "(0, 1)", "W3": "False"},
             "thorough": _RB_ALT["thorough"]}
 _RO = ["indefinite paths (wildcard, filter, slice, union, recursive descent) and the eval() of the third-party filter syntax",
@@ -154,7 +156,7 @@ _RO = ["indefinite paths (wildcard, filter, slice, union, recursive descent) and
 def _make_read(name, path, toks):
     deep = len(toks) >= 3
 
-    @condition(timeout={"quick": 90, "thorough": 1500}, bounds=_RB_DEEP if deep else (_RB_MAIN[name] if name in _RB_MAIN else _RB_ALT),
+    @condition(timeout={"quick": 90, "thorough": 1500}, bounds=_RB_DEEP if deep else (_RB_MAIN[name] if name in _RB_MAIN else _RB_SPELL),
                functions=["state_engine_paths.apply_path", "state_engine_paths.apply_jsonpath", "jsonpath.jsonpath (third party)"],
                outside=_RO, note="read path " + path)
     def read(i1: int, i2: int, i3: int, s1: int, s2: int, w3: bool) -> bool:
@@ -388,6 +390,7 @@ _QUICK_FORMS = ("dot1", "dot2", "br1", "mixed", "idx")
 def _wbounds(form):
     """Bounds per path form: @A@/@N@ alphabet and length of the first name, @N2@ of the second (0 = unused),
     @I@ largest index (0 = unused), @K@/@K2@/@K2A@ shapes of members a / b (b in the alias conditions),
+    @A2@/@NK3A@ alphabet of the second name / nested-name range in the alias conditions,
     @RK@ kinds of fresh result, @NK3@ how many of NAMES the nested member name ranges over, @NS@ string-leaf length."""
     two = form not in _ONE
     idx = "idx" in form
@@ -404,6 +407,9 @@ def _wbounds(form):
         t.update(A="'ab_0'", K=_ALLK, RK="(0, 1)", NK3=6)
     if form in ("idxdot", "dot3"):
         t.update(A="'ab'", K="(0, 1, 4, 5, 6, 7, 9, 10)" if form == "idxdot" else "(0, 1, 4, 5, 6, 10, 11)")
+    q["A2"] = q["A"]; q["NK3A"] = q["NK3"]
+    t["A2"] = "'ab'" if two else t["A"]            # alias conditions: the second name over 'ab' (the first over @A@)
+    t["NK3A"] = 4 if not two and not idx else t["NK3"]
     return {"quick": q, "thorough": t}
 
 
@@ -428,8 +434,8 @@ def _make_write(form):
                note="the result is the input object itself (whole=True) or the sub-tree that is member 'a' of the input")
     def alias_c(p1: str, p2: str, i: int, i3: int, s1: int, s2: int, whole: bool, v: int, s: str) -> bool:
         """
-        requires: s1 in @K@ and s1 != 0 and s2 in @K2A@ and len(s) <= @NS@ and 0 <= i <= @I@ and 0 <= i3 < (@NK3@ if nested(s1) else 1)
-        requires: keyif(True, p1, @A@, @N@) and keyif(@N2@ > 0, p2, @A@, @N2@)
+        requires: s1 in @K@ and s1 != 0 and s2 in @K2A@ and len(s) <= @NS@ and 0 <= i <= @I@ and 0 <= i3 < (@NK3A@ if nested(s1) else 1)
+        requires: keyif(True, p1, @A@, @N@) and keyif(@N2@ > 0, p2, @A2@, @N2@)
         ensures: _
         """
         path, toks = _wpath(form, p1, p2, i)
@@ -488,7 +494,7 @@ def write_null_document(mode: int, rv: int) -> bool:
 
 
 @condition(timeout={"quick": 90, "thorough": 900},
-           bounds={"quick": {"A": "'ab'", "N": 2, "K": "(0, 1, 5, 6)", "NK3": 2, "RK": 1}, "thorough": {"A": "'ab_'", "N": 2, "K": "(0, 1, 2, 3, 4, 5, 6, 7, 8, 10, 11)", "NK3": 6, "RK": 1}},
+           bounds={"quick": {"A": "'ab'", "N": 2, "K": "(0, 1, 5, 6)", "NK3": 2, "RK": 1}, "thorough": {"A": "'ab_'", "N": 2, "K": "(0, 1, 3, 4, 5, 6, 7, 10)", "NK3": 6, "RK": 1}},
            functions=["state_engine.merge_result (ResultPath then OutputPath)"])
 def merge_result_fresh(p1: str, oi: int, i3: int, s1: int, rk: int, explicit_out: bool) -> bool:
     """
@@ -594,7 +600,7 @@ def pass_resultpath_fresh(p1: str, two: bool, p2: str, i3: int, s1: int, rk: int
 
 
 @condition(timeout={"quick": 120, "thorough": 1200},
-           bounds={"quick": {"NK": 6, "NK3": 2, "K": "(0, 1, 5, 6)"}, "thorough": {"NK": 12, "NK3": 6, "K": "(0, 1, 2, 4, 5, 6, 7, 9, 10)"}},
+           bounds={"quick": {"NK": 6, "NK3": 2, "K": "(0, 1, 5, 6)"}, "thorough": {"NK": 12, "NK3": 6, "K": "(0, 1, 4, 5, 6, 7, 9)"}},
            functions=["StateEngine.notify>asl_state_Pass: InputPath and OutputPath", "handle_error (States.Runtime)"],
            note="a path that matches nothing fails the state with States.Runtime; otherwise the next state receives exactly the selected value",
            outside=["a Pass state whose InputPath selects a null member (the null effective input becomes {}: same cause as the null-document finding of read_null_document)"])
